@@ -343,4 +343,40 @@ theorem addTable_eq (A : Archetype) (T : Table) (hrel : T.isRel = A.isRel)
         split <;> simp [ha]
     · rfl
 
+/-! ### `GetTables`: the relation lookup a query with relation targets reads -/
+
+/-- `ofArch` with the `componentsMap` array of the source: the column index of every component that
+    is a column (the source stores -1 for the others and, for those, indexes out of range — the model's
+    `none`; the theorem below is about components that are columns). -/
+def ofArchM (A : Archetype) : G_archetype :=
+  { ofArch A with componentsMap := (List.range 256).map fun c => (A.colIdx c).getD 0 }
+
+/-- the model's relation pair as the Go `relationID` -/
+def ofRel (r : RelID) : G_relationID := { target := r.target, component := { id := r.comp } }
+
+/-- `GetTables(relations)` as in the source = the model's `getTables`, whenever the first named
+    relation component is a column of the archetype (otherwise the model yields the Go panic). -/
+theorem getTables_eq (A : Archetype) (rels : List RelID)
+    (hcol : ∀ r, rels.head? = some r → A.hasRelations = true → r.comp < 256 ∧ (A.colIdx r.comp).isSome) :
+    some (archetype_GetTables (ofArchM A) (rels.map ofRel)) = A.getTables rels := by
+  unfold archetype_GetTables Archetype.getTables
+  have hh : archetype_HasRelations (ofArchM A) = A.hasRelations := by
+    simp [archetype_HasRelations, ofArchM, ofArch, Archetype.hasRelations]
+  rw [hh]
+  cases hr : A.hasRelations with
+  | false => simp [ofArchM, ofArch]
+  | true =>
+    cases rels with
+    | nil => simp [ofArchM, ofArch]
+    | cons r rest =>
+      obtain ⟨hlt, hsome⟩ := hcol r rfl hr
+      obtain ⟨i, hi⟩ := Option.isSome_iff_exists.mp hsome
+      have hidx : ((ofArchM A).componentsMap.getD r.comp 0) = i := by
+        simp [ofArchM, List.getD_eq_getElem?_getD, hlt, hi]
+      simp only [Bool.not_true, Bool.false_or, List.length_map, List.length_cons, Nat.add_eq_zero_iff,
+        Nat.succ_ne_zero, and_false, beq_iff_eq, ↓reduceIte, hi, List.map_cons]
+      simp only [List.getD_cons_zero, ofRel, hidx]
+      simp only [ofArchM, ofArch]
+      cases AL.find? (A.relationTables.getD i []) r.target.id <;> rfl
+
 end Ark.GenBridge.Book
